@@ -954,3 +954,187 @@ def r25_assert_macro(text):
         text = text[:m.start()] + 'if !(%s) { vt_panic(); }' % ' '.join(cond.split()) + text[end:]
         n += 1
     return text, n
+
+
+def _early_return_to_else(body):
+    """{ PRE  if C { return V; }  REST }   ->   { PRE  if C { V } else { REST } }     (a closure body; one level)"""
+    m = re.search(r'if ([^{}]+?) \{\s*return ([^;{}]+);\s*\}', body)
+    if not m:
+        return body, 0
+    # REST = everything up to the closing brace of the body
+    close = body.rstrip().rfind('}')
+    rest = body[m.end():close].strip()
+    ind = _indent_of(body, m.start())
+    new = 'if %s {\n%s    %s\n%s} else {\n%s    %s\n%s}\n' % (m.group(1), ind, m.group(2), ind, ind, rest.replace('\n', '\n    '), ind)
+    return body[:m.start()] + new + body[close - len(body[:close]) + len(body[:close]) - 0:][0:0] + _indent_of(body, close) + body[close:], 1
+
+
+@rule('R26')
+def r26_range_filter_collect(text):
+    """let N: T = (RANGE) .filter_map(|i| { BODY }) .collect();   ->
+         let mut N: T = Vec::new(); for i in RANGE { let vt_o = { BODY' }; if let Some(vt_x) = vt_o { N.push(vt_x); } }
+       let N: T = (RANGE) .filter(|i| { BODY }) .collect();       ->
+         let mut N: T = Vec::new(); for vt_k in RANGE { let i = &vt_k; let vt_b = { BODY }; if vt_b { N.push(vt_k); } }
+    BODY' = BODY with an early `if C { return V; } REST` turned into `if C { V } else { REST }` (a `return` inside a closure
+    ends the closure call, i.e. yields V for this element).  Definition of filter / filter_map + collect into a Vec: the
+    closure runs once per element of the range, in order; kept elements are pushed in order."""
+    n = 0
+    while True:
+        m = re.search(r'([ \t]*)let (%s): ([^=]+?) = \(([^()]*(?:\([^()]*\)[^()]*)*)\)\s*\.(filter_map|filter)\(\|(%s)\| \{' % (IDENT, IDENT), text)
+        if not m:
+            break
+        ind, name, ty, rng, kind, var = m.groups()
+        o = m.end() - 1
+        c = _balanced(text, o, '{', '}')
+        tail = re.match(r'\)\s*\.collect\(\);', text[c + 1:])
+        if not tail:
+            break
+        body = text[o:c + 1]
+        if kind == 'filter_map':
+            body, _ = _early_return_to_else(body)
+            new = ('%slet mut %s: %s = Vec::new();\n%sfor %s in %s {\n%s    let vt_o = %s;\n%s    if let Some(vt_x) = vt_o { %s.push(vt_x); }\n%s}'
+                   % (ind, name, ty, ind, var, rng, ind, body, ind, name, ind))
+        else:
+            new = ('%slet mut %s: %s = Vec::new();\n%sfor vt_k in %s {\n%s    let %s = &vt_k;\n%s    let vt_b = %s;\n%s    if vt_b { %s.push(vt_k); }\n%s}'
+                   % (ind, name, ty, ind, rng, ind, var, ind, body, ind, name, ind))
+        text = text[:m.start()] + new + text[c + 1 + tail.end():]
+        n += 1
+    return text, n
+
+
+@rule('R28')
+def r28_option_map_pair(text):
+    """EXPR .map(|x| (i, x))   ->   match EXPR { Some(x) => Some((i, x)), None => None }     (definition of Option::map)"""
+    n = 0
+    while True:
+        m = re.search(r'\s*\.map\(\|(%s)\| \((%s), \1\)\)' % (IDENT, IDENT), text)
+        if not m:
+            break
+        # EXPR starts after the previous `;`, `{` or `}` (statement start)
+        k = m.start()
+        j = k
+        d = 0
+        while j > 0:
+            ch = text[j - 1]
+            if ch in ')]':
+                d += 1
+            elif ch in '([':
+                d -= 1
+            elif ch in ';{}' and d == 0:
+                break
+            j -= 1
+        expr = ' '.join(text[j:k].split()).replace(' .', '.')
+        lead = text[j:k][:len(text[j:k]) - len(text[j:k].lstrip())]
+        text = text[:j] + lead + 'match %s { Some(%s) => Some((%s, %s)), None => None }' % (expr, m.group(1), m.group(2), m.group(1)) + text[m.end():]
+        n += 1
+    return text, n
+
+
+@rule('R29')
+def r29_set_map(text):
+    """X = X .into_iter() .map(|i| BODY) .collect();   ->   X = vt_set_map(X, |i: usize| -> usize { BODY });
+    (a HashSet<usize> mapped element-wise into a HashSet<usize>: the result is the image of the set; the closure keeps its
+    real text and gets explicit types so that its `requires`/`ensures` can be woven)"""
+    n = 0
+    while True:
+        m = re.search(r'(%s) = \1\s*\.into_iter\(\)\s*\.map\(\|(%s)\| ' % (IDENT, IDENT), text)
+        if not m:
+            break
+        x, var = m.groups()
+        k = m.end()
+        d = 0
+        while k < len(text):
+            ch = text[k]
+            if ch in '([{':
+                d += 1
+            elif ch in ')]}':
+                if d == 0:
+                    break
+                d -= 1
+            k += 1
+        body = text[m.end():k].strip()
+        tail = re.match(r'\)\s*\.collect\(\);', text[k:])
+        if not tail:
+            break
+        if not body.startswith('{'):
+            body = '{ %s }' % body
+        text = text[:m.start()] + '%s = vt_set_map(%s, |%s: usize| -> usize %s);' % (x, x, var, body) + text[k + tail.end():]
+        n += 1
+    return text, n
+
+
+@rule('R30')
+def r30_unwrap_or_default(text):
+    """X.unwrap_or_default()   ->   vt_unwrap_or_default(X)      (Option<HashSet<usize>>: the set, or the empty set)"""
+    return re.subn(r'\b(%s)\.unwrap_or_default\(\)' % IDENT, r'vt_unwrap_or_default(\1)', text)
+
+
+def _postfix_operand(text, i):
+    """parse one operand `ident(.ident | (args) | [idx])*` or a string literal starting at text[i]; returns end index"""
+    m = re.match(r'"(?:[^"\\]|\\.)*"', text[i:])
+    if m:
+        k = i + m.end()
+    else:
+        m = re.match(IDENT, text[i:])
+        if not m:
+            return None
+        k = i + m.end()
+    while k < len(text):
+        if text[k] == '(':
+            k = _balanced(text, k, '(', ')') + 1
+        elif text[k] == '[':
+            k = _balanced(text, k, '[', ']') + 1
+        else:
+            m2 = re.match(r'\s*\.(%s)' % IDENT, text[k:])
+            if m2:
+                k += m2.end()
+            else:
+                break
+    return k
+
+
+@rule('R24c')
+def r24_string_add_chain(text):
+    """E0.to_string() + E1 + E2 ..   ->   vt_string_add(vt_string_add(E0.to_string(), E1), E2) ..
+    (operands are postfix chains: `cs.sub(0, i)`, `insertion`, `cs.get(i).unwrap()`; `+` on String is left-associative
+    push_str)"""
+    n = 0
+    pos = 0
+    while True:
+        m = re.search(r'\.to_string\(\)\s*\+\s', text[pos:])
+        if not m:
+            break
+        end0 = pos + m.start() + len('.to_string()')
+        # start of E0: scan back over the postfix chain
+        j = pos + m.start()
+        d = 0
+        while j > 0:
+            ch = text[j - 1]
+            if ch in ')]':
+                d += 1
+            elif ch in '([':
+                if d == 0:
+                    break
+                d -= 1
+            elif d == 0 and not (ch.isalnum() or ch in '_."' or ch.isspace() and text[j:j + 1] == '.'):
+                break
+            j -= 1
+        while text[j].isspace():
+            j += 1
+        acc = ' '.join(text[j:end0].split()).replace(' .', '.')
+        k = end0
+        while True:
+            mm = re.match(r'\s*\+\s*', text[k:])
+            if not mm:
+                break
+            s = k + mm.end()
+            e = _postfix_operand(text, s)
+            if e is None:
+                break
+            opnd = ' '.join(text[s:e].split()).replace(' .', '.')
+            acc = 'vt_string_add(%s, %s)' % (acc, opnd)
+            k = e
+            n += 1
+        text = text[:j] + acc + text[k:]
+        pos = j + len(acc)
+    return text, n
